@@ -789,6 +789,39 @@ def rule_r15(repo, run, T):
     import_rules(run, R, c02, repo, {"C02.R9"})
 
 
+def rule_r16(repo, run, T):
+    R = run.rule("C03.R16", "a local variable that a statement entry declares without a value is given one by the same entry "
+                            "before the wrapper can read it (implied arguments read {size_var} of the argument they name)")
+    py = T["py"]
+    n = 0
+    done = set()
+    for lang in ("c", "c++"):
+        for name, e in sorted(py.resolve_all(lang).items()):
+            if name.startswith("base_") or name in done:
+                continue
+            decls = [l for c in ("declare", "arg_declare", "post_declare") for l in e.lines(c)]
+            code = " ".join(l.replace("\t", " ") for c in ("post_declare", "post_parse", "pre_call", "post_call", "declare", "arg_declare")
+                            for l in e.lines(c))
+            args = " ".join(str(a) for a in (e.get("parse_args") or []))
+            for d in decls:
+                m = re.match(r"^\s*[A-Za-z_][\w\s{}*]*?[\s*]\{(\w+)\}\s*;\s*$", d.replace("\t", " "))
+                if not m:
+                    continue
+                var = "{%s}" % m.group(1)
+                if var != "{size_var}":
+                    # other bare declarations are filled by PyArg_Parse (&{c_var} is added by wrap_function) or by the
+                    # library call (&{cxx_var} in arg_call); the size is only ever set by the entry itself
+                    continue
+                done.add(name)
+                n += 1
+                assigned = re.search(re.escape(var) + r"\s*=[^=]", code) is not None or ("&" + var) in code or ("&" + var) in args
+                run.check(R, "wrapp.py_statements[%s]:%s" % (name, var), assigned,
+                          "the entry declares `%s` and never assigns it: an argument with +implied(size(...)) of this argument "
+                          "reads an indeterminate value (the sibling entries set it from the converter's size)" % (d.strip(), ),
+                          py.loc(e.raw))
+    run.floor(R, "size variables declared by entries", n, 3)
+
+
 def run(repo, run, tier):
     tables.check_model_assumptions(repo)
     T = dict(py=tables.StatementTable(repo, "wrapp", "py_statements"),
@@ -809,4 +842,5 @@ def run(repo, run, tier):
     rule_r13(repo, run, T)
     rule_r14(repo, run, T)
     rule_r15(repo, run, T)
+    rule_r16(repo, run, T)
     run.assumptions.append("LP64 sizes; CPython PyArg_Parse / Py_BuildValue unit table in the checker")
